@@ -123,6 +123,29 @@ def run(ctx, drv):
                     a, b = call(f, fresh(aset)), call(f, sh)
                     if isinstance(a, str) != isinstance(b, str) or (not isinstance(a, str) and not close(a, b, 1e-9)):
                         ctx.fail("indicator-depends-on-order", dict(inp, indicator=name), [a, b], "equal", "indicators")
+        # cross-scoring history: two indicators with different reference sets; the first reference set is itself scored by the
+        # second indicator (comparing fronts against each other) between two uses of the first indicator.  The value of the
+        # first indicator is defined by its own reference set and the evaluated set alone.
+        if t % 3 == 0 and nfeas >= 1:
+            for name, mk_i, exact in (("gd", lambda R: I.GenerationalDistance(R, d), lambda: indic.gd_exact(ref, aset, nobjs, d)),
+                                      ("igd", lambda R: I.InvertedGenerationalDistance(R, d), lambda: indic.gd_exact(ref, aset, nobjs, d, inverted=True)),
+                                      ("eps", lambda R: I.EpsilonIndicator(R), lambda: indic.eps_exact(dirs, ref, aset, nobjs))):
+                r1 = [mk_sol(p, list(s_.objectives), s_.constraint_violation) for s_ in ref]
+                r2 = [mk_sol(p, [2.0 * o + 0.5 for o in s_.objectives], s_.constraint_violation) for s_ in ref]
+
+                def history():
+                    i1, i2 = mk_i(r1), mk_i(r2)
+                    first = i1.calculate(fresh(aset))
+                    i2.calculate(r1)
+                    return first, i1.calculate(fresh(aset))
+                got = call(history)
+                ctx.count("cross_scoring_histories")
+                if isinstance(got, str):
+                    continue            # a refusal or crash of a single call is judged by the stream above
+                ex = exact()
+                hinp = dict(inp, indicator=name, d=d, history="i1 = Ind(R1); i2 = Ind(R2 = 2*R1 + 0.5); i1(set); i2(R1 objects); i1(set)")
+                if not close(got[1], ex) or not close(got[0], ex):
+                    ctx.fail("indicator-depends-on-earlier-calls", hinp, list(got), [ex, ex], "indicators (reference set normalised once, in the constructor)")
         ctx.case(reqs[-2], nfeas >= 2, dict(inp, d=d) if len(ctx.samples) < 2 and nfeas >= 2 else None)
     if drv.ok:
         out = drv.batch(reqs)
